@@ -1,7 +1,9 @@
 use super::{IResult, LocatedSpan};
 use nom::branch::alt;
-use nom::bytes::complete::tag_no_case;
-use nom::combinator::map;
+use nom::bytes::complete::{tag, tag_no_case};
+use nom::character::complete::alphanumeric1;
+use nom::combinator::{map, not};
+use nom::sequence::terminated;
 use strum::{EnumIter, EnumString, EnumVariantNames};
 
 /// The available 6502 instructions.
@@ -68,7 +70,14 @@ pub enum Mnemonic {
 
 macro_rules! parse_mnemonic {
     ( $ input : expr , $ expected : expr ) => {
-        map(tag_no_case($input), |_| $expected)
+        // (an identifier that merely starts with a mnemonic, e.g. 'start' or 'inc16', is not an instruction)
+        map(
+            terminated(
+                tag_no_case($input),
+                not(alt((alphanumeric1, tag("_")))),
+            ),
+            |_| $expected,
+        )
     };
 }
 
